@@ -280,18 +280,24 @@ func (g *gen) rule(custom bool) *authpb.Rule {
 			return 0
 		case x < 0.82:
 			return 1
-		default:
+		case x < 0.96:
 			return 2
+		default:
+			return 3
 		}
 	}
 	nf, nt := count(), count()
 	nw := 0
 	switch x := g.r.Float64(); {
-	case x < 0.50:
-	case x < 0.86:
+	case x < 0.47:
+	case x < 0.80:
 		nw = 1
-	default:
+	case x < 0.90:
 		nw = 2
+	default:
+		// long condition lists (with several from/to alternatives they exercise how the shared condition
+		// prefix is combined with each alternative)
+		nw = 3 + g.r.Intn(7)
 	}
 	if nf+nt+nw == 0 {
 		switch g.r.Intn(3) {
